@@ -239,6 +239,23 @@ Module Doc.
   | SSIdx (x : tree tok)
   | SSSlice (a b : option (tree tok)).
 
+  (* a single expression, or  E ++ / E --  (E without a top-level assignment operator) *)
+  Definition parse_ext (ts : list tok) : option (tree tok) :=
+    match parse ts with
+    | Some x => Some x
+    | None =>
+      match rev ts with
+      | q :: re =>
+        if is_lowpost q then
+          match classify tok is_operand is_prefix is_binop is_postfix (rev re) with
+          | Some a => if no_assign a then Some (Post q (split_alt tok prec rassoc a)) else None
+          | None => None
+          end
+        else None
+      | [] => None
+      end
+    end.
+
   Definition seg (ts : list tok) : option (option (tree tok)) :=
     match ts with [] => Some None | _ => match parse ts with Some x => Some (Some x) | None => None end end.
 
@@ -248,7 +265,7 @@ Module Doc.
     | O =>
       match ts with
       | [] | [_] => Some (SSRaw ts)
-      | _ => match parse ts with
+      | _ => match parse_ext ts with
              | Some x => Some (SSIdx x)
              | None => match block ts with
                        | Some (_ :: _ :: _) => if forallb is_operand ts then Some (SSRaw ts) else None
